@@ -334,6 +334,30 @@ func main() {
 		check(w, *goose, mod, "g/"+name, outRoot, v)
 		packages++
 	}
+	// a package with many failing declarations spread over two files, and translatable ones after them
+	{
+		dir := filepath.Join(mod, "many", "errs")
+		os.MkdirAll(dir, 0o755)
+		var a, b strings.Builder
+		a.WriteString("package errs\n\nfunc First(x uint64) uint64 {\n\treturn x + 1\n}\n\n")
+		for i := 0; i < 14; i++ {
+			fmt.Fprintf(&a, "func Bad%d(c chan uint64) uint64 {\n\treturn <-c\n}\n\n", i)
+		}
+		a.WriteString("type Pair struct {\n\ta uint64\n\tb uint64\n}\n\nfunc Middle(x uint64) uint64 {\n\treturn x * 2\n}\n")
+		b.WriteString("package errs\n\n")
+		for i := 0; i < 6; i++ {
+			fmt.Fprintf(&b, "func Worse%d(x uint64) uint64 {\n\tswitch x {\n\tcase 1:\n\t\treturn 2\n\t}\n\treturn x\n}\n\n", i)
+		}
+		b.WriteString("func Last(p Pair) uint64 {\n\treturn p.a + p.b\n}\n")
+		os.WriteFile(filepath.Join(dir, "a.go"), []byte(a.String()), 0o644)
+		os.WriteFile(filepath.Join(dir, "z.go"), []byte(b.String()), 0o644)
+		before := v.errors
+		check(w, *goose, mod, "many/errs", outRoot, v)
+		if v.errors-before != 20 {
+			fmt.Fprintf(w, "MISMATCH kind=error-count pkg=many/errs detail=%s\n", hex.EncodeToString([]byte(fmt.Sprintf("20 declarations fail, %d errors were reported", v.errors-before))))
+		}
+		packages++
+	}
 	// mutants of the shipped examples
 	examples := []string{"unittest", "semantics", "append_log", "simpledb", "wal", "logging2", "rfc1813", "comments", "async"}
 	mutants, discarded := 0, 0
